@@ -1,5 +1,5 @@
 """C04 - channel membership is one consistent relation that follows the history."""
-from ..runner import Result
+from ..runner import Finding, Result
 from . import common
 
 PROFILE = {'name': 'c04', 'max_clients': 6, 'hostile_masks': False, 'mp_rate': 0.5, 'weights': {'connect': 6, 'end': 3, 'quit': 2, 'join': 18, 'part': 8, 'kick': 6, 'topic': 2, 'invite': 2, 'cmode': 8, 'umode': 4, 'nick': 7, 'privmsg': 4, 'notice': 2, 'away': 1, 'oper': 1, 'kill': 0.5, 'wallops': 0.5, 'stats': 0.3, 'die': 0.1, 'squit': 0.1, 'names': 9, 'who': 9, 'whois': 9, 'list': 0.5, 'lusers': 0.5, 'ison': 0.3, 'userhost': 0.3, 'whowas': 0.3, 'chanlist': 0.5, 'cquery': 2}, 'mode_weights': {'s': 6, 'q': 3, 'a': 3, 'o': 5, 'h': 4, 'v': 5}}
@@ -19,6 +19,23 @@ def run(ctx):
     res.floor("view_probes", probes, 300)
     res.floor("membership_changes", changes, 500)
     common.run_big(ctx, res, ("C04",))
+    # simultaneous renames of members of one channel to one nickname: afterwards NAMES lists everybody once under
+    # the nickname it now has, and the observer heard one NICK announcement per accepted rename
+    import multiprocessing
+    from .. import storm
+    binary, hooks = ctx.binary()
+    sjobs = [(binary, hooks, s, 2000 if hooks else 0, None, None, 12 if ctx.quick else 100, ctx.quick, ["rename"])
+             for s in ctx.seeds(8, "renamestorm")]
+    with multiprocessing.Pool(8) as pool:
+        souts = pool.map(storm.worker, sjobs)
+    for o in souts:
+        res.evaluations += o["rounds"]
+        res.extra["rename_storm_rounds"] = res.extra.get("rename_storm_rounds", 0) + o["rounds"]
+        for sig, detail in o["findings"]:
+            res.findings.append(Finding("c04:" + sig, detail, {"engine": "storm"}))
+        if o["inconclusive"]:
+            res.inconclusive += 1
+            res.inconclusive_notes.append(o["inconclusive"])
     for r in results[:3]:
         if r.get("tail"):
             res.add_sample({"episode_seed": r["seed"], "last_commands": r["tail"]})
